@@ -368,7 +368,7 @@ func init() {
 		Rule: "every (pool, block size, request count) with size in the tier's set and count in 0..3*size+2 is one history Get^count on the real pool (run as one chain per size, the oracle evaluated after every Get, i.e. on every prefix history); " +
 			"after every Get: non-nil, pointer not seen before, no storage overlap with the previous objects, a unique value is written and all earlier objects are read back; " +
 			"then writes in reverse order. Plus: long histories (150 000 requests, thorough 1 500 000) over small and very large blocks with the duplicate test on every request and full read-backs at block boundaries of the first 64 blocks and every 8192 requests; the histories of some sizes with garbage collections in the middle; every interleaving word of length 10 (thorough 14) over two pools alive at once, all size pairs in 1..4 (objects distinct across pools too); a free-running -race pass with 12 goroutines owning their pools (sampling, complements, never decides). non-trivial = histories that cross at least one block boundary (count > size); distinct by (pool,size,count)",
-		Assume: []string{"the pool files are built through the overlay that only turns `const DefaultBlockSize` into a var; Get/NewPool are the tree's own code"},
+		Assume: []string{"pkg/token/pool.go and pkg/position/pool.go are compiled exactly as they are in the tree (no overlay touches them)"},
 		Run: func(c *core.Ctx) {
 			for _, pool := range []string{"token", "position"} {
 				for _, size := range c18Sizes(c.Thorough()) {
